@@ -326,6 +326,7 @@ SCHEMA = {
     108: ("eui6", ["eui"]), 109: ("eui8", ["eui"]),
     CH_A: ("n o16", ["domain", "address"]),
     20: ("q qopt", ["address", "subaddress"]),
+    27: ("gplat gplon gpalt", ["latitude", "longitude", "altitude"]),
     250: ("nnr d48 d16 mac d16 ercode b64opt", ["algorithm", "time_signed", "fudge", "mac", "original_id", "error", "other"]),
     # composite kinds take several constructor arguments / attributes
     45: ("d8 gwi b64e", ["precedence", ("gateway_type", "algorithm", "gateway"), "key"]),
@@ -379,6 +380,19 @@ def gen_field(rng, kind):
         return [g, a, gw]
     if kind == "b64e":
         return b"" if rng.random() < 0.3 else (gen_bytes(rng, 60) or b"\x01")
+    if kind in ("gplat", "gplon", "gpalt"):
+        lim = {"gplat": 90, "gplon": 180, "gpalt": 10**6}[kind]
+        r = rng.random()
+        if r < 0.25:
+            t = rng.choice(["0", "-0", "+0", "0.", ".0", "-.5", "+5.", "00.00", str(lim), "-" + str(lim), str(lim) + ".0", str(lim) + ".",
+                            "-" + str(lim) + ".000", "%d.%s" % (lim - 1, "9" * rng.choice([1, 5, 17, 30])), "0" * rng.choice([1, 5, 40]) + "1.5"])
+        else:
+            i = str(rng.randrange(lim))
+            f = "".join(rng.choice("0123456789") for _ in range(rng.choice([0, 1, 2, 3, 8, 20])))
+            t = rng.choice(["", "-", "+"]) + (i if rng.random() < 0.9 else "") + ("." + f if f or rng.random() < 0.3 else "")
+            if t in ("", "-", "+", ".", "-.", "+."):
+                t = "1"
+        return t.encode()
     if kind == "mac":
         return gen_bytes(rng, 40) or b"\x00"
     if kind == "ercode":
@@ -501,6 +515,16 @@ def schema_cases(ctx):
         for dt in (0, 1, 2, 3, 4, 5, 255, 256):
             for n in sorted({1, 2, DS_LEN.get(dt, 7), DS_LEN.get(dt, 7) + 1}):
                 yield "rd-from-text", [41, rdtype, enc("60485 %s %d %s" % (rng.choice(["5", "8", "RSASHA1", "ED25519"]), dt, "ab" * n)), [None, 1, None]]
+    # GPOS: the float comparisons at the limits, and every shape _validate_float_string accepts / rejects
+    for lim, pos in ((90, 0), (180, 1)):
+        for t in ("%d", "-%d", "+%d.", "%d.0", "%d.000000000000001", "%d.00000000000001", "-%d.00000000000002", "%d.1", "0%d", "%d1",
+                  "%de0", ".%d", "-.", "+", "", "1..2", "1.2.3", "--1", "1-", " 1", "1_0", "0x1", "nan", "inf", "\\049"):
+            v = (t % lim) if "%d" in t else t
+            toks = ["0", "0", "0"]
+            toks[pos] = v
+            yield "rd-from-text", [41, 27, enc(" ".join(toks)), [None, 1, None]]
+            toks[2], toks[pos] = v, "0"
+            yield "rd-from-text", [41, 27, enc(" ".join(toks)), [None, 1, None]]
     for scheme in (0, 1, 2, 255):
         for h in (0, 1, 2, 3):
             for n in (1, 47, 48, 64, 65):
